@@ -27,10 +27,29 @@ pub struct UniverseOutcome {
     pub machinery: Vec<String>,
 }
 
+/// Shapes around the 16-flat-parameter limit (the refabi universes stop at exactly 16): the
+/// parameter list is passed flat with 16 core values and through a caller-allocated record with 17.
+pub fn wide_types() -> Vec<Ty> {
+    let s = || Ty::String;
+    vec![
+        Ty::Tuple(vec![Ty::U32; 16]),
+        Ty::Tuple(vec![Ty::U32; 17]),
+        Ty::Tuple(vec![s(), s(), s(), s(), s(), s(), s(), s()]),
+        Ty::Tuple(vec![s(), s(), s(), s(), s(), s(), s(), s(), Ty::U8]),
+        Ty::Record(vec![Ty::U64, Ty::U64, Ty::U64, Ty::U64, Ty::U64, Ty::U64, Ty::U64, Ty::U64, s(), s(), s(), s(), s()]),
+        Ty::Tuple(vec![Ty::U8, Ty::F64, Ty::U16, Ty::F32, Ty::Bool, Ty::S64, Ty::Char, Ty::List(Box::new(Ty::U8)), Ty::U8, Ty::U8, Ty::U8, Ty::U8, Ty::U8, Ty::U8, Ty::U8, Ty::Option(Box::new(s()))]),
+        Ty::Record(vec![Ty::List(Box::new(s())), Ty::Option(Box::new(Ty::List(Box::new(Ty::U64)))), Ty::Result(Some(Box::new(s())), Some(Box::new(Ty::List(Box::new(s()))))), Ty::Variant(vec![None, Some(s()), Some(Ty::F64)]), Ty::Tuple(vec![Ty::U8; 9])]),
+    ]
+}
+
 fn universe_types(name: &str) -> Vec<Ty> {
     let mut out = Vec::new();
     for part in name.split('+') {
-        out.extend(refabi::universe::universe(part));
+        if part == "wide" {
+            out.extend(wide_types());
+        } else {
+            out.extend(refabi::universe::universe(part));
+        }
     }
     let mut seen = BTreeSet::new();
     out.retain(|t| seen.insert(t.clone()));
@@ -366,16 +385,16 @@ pub fn main(id: &str) {
     if let Some(d) = run.replay_detail() {
         replay(id, &d);
     }
-    // quick: u1 ∪ pairs, default configuration.
-    // thorough: (u1 ∪ u2) x all six configurations, and the depth-3 universe u3r x the two
+    // quick: u1 ∪ pairs ∪ wide, default configuration.
+    // thorough: (u1 ∪ u2 ∪ wide) x all six configurations, and the depth-3 universe u3r x the two
     // configurations that differ most (default/utf8, no-sig-flattening/utf16).
     let mut plan: Vec<(String, Vec<CConfig>)> = if run.thorough() {
         vec![
-            ("u1+u2".to_string(), CConfig::all()),
+            ("u1+u2+wide".to_string(), CConfig::all()),
             ("u3r".to_string(), vec![CConfig::DEFAULT, CConfig { no_sig_flattening: true, autodrop: false, utf16: true }]),
         ]
     } else {
-        vec![("quick".to_string(), vec![CConfig::DEFAULT])]
+        vec![("quick+wide".to_string(), vec![CConfig::DEFAULT])]
     };
     if let Ok(u) = std::env::var("E4_UNIVERSE") {
         plan = vec![(u, plan[0].1.clone())];
